@@ -105,8 +105,8 @@ void vrt_emit(const char *stream, const void *obj, const char *ev, int nargs, co
     t_internal++;
     pthread_mutex_lock(&g_tr_lock);
     if (g_tr_file) {
-        /* an event whose name starts with "Ctor" opens a new instance of the object at this address */
-        int  id = obj_id(stream, obj, !strncmp(ev, "Ctor", 4));
+        /* an event whose name starts with "Ctor" or "Init" opens a new instance of the object at this address */
+        int  id = obj_id(stream, obj, !strncmp(ev, "Ctor", 4) || !strncmp(ev, "Init", 4));
         char buf[512];
         int  n = snprintf(buf, sizeof buf, "%lld %d %s %d %s", ++g_seq, tid, stream, id, ev);
         for (int i = 0; i < nargs && n < (int)sizeof buf - 24; i++)
